@@ -88,7 +88,7 @@ def h_cursor() -> bool:
                     sec = pb.LP(name=(b"lparname"[:a - 1] + b"\0") if a else b"", targets=tuple(0x0101 * (j + 1) for j in range(b)))
         exp_name = "Impacted Partition"
     elif typ in ("UD", "ED", "XX"):
-        n = sym_int("n", 1, 16)
+        n = sym_int("n", 1, 16 if typ != "XX" else 8)      # (XX also forks over 20 section names)
         payload = b"\x01\x02\x03\x04\x05\x06\x07\x08\x09\x0A\x0B\x0C\x0D\x0E\x0F\x10"
         hdrlen = 12 if typ == "ED" else 8
         # the declared length is symbolic; the buffer continues with `nxt` right after the payload
@@ -115,7 +115,10 @@ def h_cursor() -> bool:
         exp_name = "Primary SRC" if typ == "PS0" else "Secondary SRC"
     declared = pb.size_of(sec)
     own = pb.flat(sec)
-    data = mkbytes(own, nxt, filler)
+    if bool(sym_bool("followed")):
+        data = mkbytes(own, nxt, filler)
+    else:
+        data = own                       # last section of the file
     try:
         name, entry, used = decode_at(data)
         name1, entry1, used1 = decode_at(own)
